@@ -34,12 +34,15 @@ META_DIR = {
                b"Name=Remote NoPort\nType=1\nPath=/r\nHost=other.example\nPort=70\n\n"
                b"Name=A Web Link\nType=h\nPath=URL:http://example.com/x?y=1&z\nHost=+\nPort=+\n\n"
                b"Name=Relative\nType=0\nPath=c/x.txt\nHost=+\nPort=+\n\n"
-               b"Name=Find\nType=7\nPath=/f_files/plain.txt\nHost=+\nPort=+\n",
+               b"Name=Find\nType=7\nPath=/f_files/plain.txt\nHost=+\nPort=+\n\n"
+               b"Name=Other Daemon\nType=1\nPath=/archive\nPort=7071\n\n"
+               b"Name=Other Host Same Port\nType=1\nPath=/archive\nHost=elsewhere.example\n",
     b".cap": {b"d.txt": b"Name=Delta Capped\nNumb=-1\n"},
 }
 GM_DIR = {
     b"gophermap": b"Welcome & <hello>\n\n0Local file\tlocal.txt\n1Root\t/\n0Abs\t/target.txt\nhWeb\tURL:http://example.com/\n"
-                  b"1Remote\t/x\tremote.example\t7070\n0RemoteDefPort\t/y\tremote.example\n7Search\t/target.txt\n0NoSel\n iLooksLikeInfo\tx\n",
+                  b"1Remote\t/x\tremote.example\t7070\n0RemoteDefPort\t/y\tremote.example\n7Search\t/target.txt\n0NoSel\n iLooksLikeInfo\tx\n"
+                  b"1OtherDaemon\t/archive\t\t7071\n",
     b"local.txt": b"local\n",
 }
 
@@ -194,7 +197,7 @@ def _shard(shard, seed, tier):
 # --- search -----------------------------------------------------------------------------
 
 SEARCH_ALPHABET = [b"a", b" ", b"+", b"&", b"=", b"%", b"?", b"#", b"/", b"\xc3\xa9", b"\xff", b'"', b"<", b"'"]
-SEARCH_VIEWS = ["gopher", "gopherp", "http", "wap", "gemini", "spartan", "https", "sgopher"]
+SEARCH_VIEWS = ["gopher", "gopherp", "http", "wap", "gemini", "gemini_raw", "spartan", "https", "sgopher"]
 
 HEXDUMP = b"#!/bin/sh\nprintf '%s' \"$SEARCHREQUEST\" | od -An -v -tx1 | tr -d ' \\n'\n"
 PYGQ = worlds.PYG.replace(b'"PYG:%r\\n" % (self.searchrequest,)', b'"PYG:%s\\n" % ((self.searchrequest or "").encode(errors="surrogateescape").hex(),)')
@@ -224,6 +227,9 @@ def search_request(view, sel, q):
         return b"GET /wap" + sel + b"?searchrequest=" + enc + b" HTTP/1.0\r\n\r\n", False
     if view == "gemini":
         return b"gemini://" + host + sel + b"?" + enc + b"\r\n", True
+    if view == "gemini_raw":
+        # a client that leaves the characters RFC 3986 allows in a query unescaped ('+' is just '+')
+        return b"gemini://" + host + sel + b"?" + quote(q, safe="!$&'()*+,;=:@/?").encode() + b"\r\n", True
     if view == "spartan":
         return host + b" " + sel + (" %d\r\n" % len(q)).encode() + q, False
     raise ValueError(view)
@@ -245,7 +251,7 @@ def _delivered(view, out, target):
                     body = parsers.split_http(out)[2]
                 except ValueError:
                     return None
-            elif view in ("gemini", "spartan", "gopherp"):
+            elif view in ("gemini", "gemini_raw", "spartan", "gopherp"):
                 body = out.split(b"\r\n", 1)[1] if b"\r\n" in out else b""
             m = re.match(rb"^([0-9a-f]*)$", body.strip())
     return m.group(1) if m else None
